@@ -27,9 +27,17 @@ where
 
     pub fn get(&self, index: Source::Idx) -> Result<&Arc<Value>, Source::Error> {
         let cache_slot = &self.values[index.into()];
+        #[cfg(jubako_verif)]
+        if cache_slot.get().is_some() {
+            crate::verif::point(crate::verif::Event::VecCacheHit { idx: index.into() });
+        }
         if cache_slot.get().is_none() {
+            #[cfg(jubako_verif)]
+            crate::verif::point(crate::verif::Event::VecCacheMiss { idx: index.into() });
             let new_value = self.source.get_value(index)?;
             let _ = cache_slot.set(new_value);
+            #[cfg(jubako_verif)]
+            crate::verif::point(crate::verif::Event::VecCacheFilled { idx: index.into() });
         }
 
         Ok(cache_slot.get().unwrap())
